@@ -37,7 +37,9 @@ ASSUMPTIONS = [
     "or with h[n]=v for token n and field-value v); a map holding a raw value such as ' x' or 'a\\nb' set through h[n]=v does not round-trip and copy() of it raises HTTPInputError (modelled, tested)",
 ]
 RULE = ("programs over names differing only in case (a, A, x-y, X-Y, ...) and field-value-shaped values: exhaustive over a 13-letter operation alphabet "
-        "up to length 2 plus 11 letters at length 3 (quick) / 13 letters up to length 3, 11 letters at length 4 and 7 letters at length 5 (thorough), each followed by copy + mutation of both objects + reparse; "
+        "up to length 2 plus 8 letters at length 3 (quick) / 13 letters up to length 3, 11 letters at length 4 and 7 letters at length 5 (thorough), each followed by copy + mutation of both objects + reparse; "
+        "a cache-probe family: every sequence of mutating operations (add k / add K / set k / del K / continuation / header line [/ add b]) of length <= 4 (quick) / <= 5 (thorough) "
+        "with a mapping read of every key after every step; "
         "plus random programs up to length 12 over a richer alphabet (invalid names/values, CR/LF variants, continuation lines, header blocks); "
         "distinct by program; non-trivial = at least one command changed an object")
 
@@ -394,6 +396,7 @@ ALPHA12 = [
     lambda p: on(0, "parse_line", "A:"),
 ]
 ALPHA11 = [ALPHA12[i] for i in (0, 1, 2, 3, 5, 6, 7, 9, 10, 11, 12)]
+ALPHA8 = [ALPHA12[i] for i in (0, 1, 3, 5, 7, 9, 11, 12)]
 ALPHA7 = [ALPHA12[i] for i in (0, 1, 3, 5, 7, 9, 12)]
 
 
@@ -405,6 +408,31 @@ def exhaustive(alpha, n):
         tail = [["copy", 0], on(last, "add", "a", "z"), on(0, "add", "X-Y", "y"), on(last, "del", "x-y"),
                 on(0, "get", "a"), on(last, "get", "a"), on(0, "get", "x-y"), ["reparse", 0]]
         yield prog + tail
+
+
+# cache-probe family: every sequence of MUTATING operations, with a mapping-style read of every key
+# after EVERY step (the reads are what populates _combined_cache, so any write that forgets to
+# invalidate it is exposed by the next read, whatever the number of values the name has)
+PROBE6 = [
+    lambda p: on(0, "add", "a", "v%d" % p),
+    lambda p: on(0, "add", "A", "w%d" % p),
+    lambda p: on(0, "set", "a", "s%d" % p),
+    lambda p: on(0, "del", "A"),
+    lambda p: on(0, "parse_line", (" c%d" % p) if p % 2 == 0 else "\t"),
+    lambda p: on(0, "parse_line", "a: p%d\r\n" % p),
+]
+PROBE7 = PROBE6 + [lambda p: on(0, "add", "b", "q%d" % p)]
+
+
+def cache_probe(alpha, n, keys):
+    reads = [on(0, "get", k) for k in keys]
+    for seq in itertools.product(range(len(alpha)), repeat=n):
+        prog = []
+        for p, k in enumerate(seq):
+            prog.append(alpha[k](p))
+            prog += reads
+        prog += [on(0, "get_list", keys[0]), on(0, "str"), ["copy", 0], on(1, "get", keys[0]), ["reparse", 0]]
+        yield prog
 
 
 def rand_name(rng, validated):
@@ -468,6 +496,11 @@ def rand_prog(rng, maxlen):
             c = ["parse", rand_block(rng)]
             nobj += 1
         prog.append(c)
+        if c[0] == "on" and c[2] in ("add", "set", "del", "parse_line", "get") and rng.random() < 0.6:
+            # read a recently touched key (under another spelling) right after the write
+            recent = [x[3] for x in prog[-6:] if x[0] == "on" and x[2] in ("add", "set", "get") and all(ord(ch) < 128 for ch in x[3])]
+            nm = rng.choice(recent) if recent else rng.choice(NAMES)
+            prog.append(on(c[1], "get", rng.choice([nm, nm.upper(), nm.lower()])))
     prog += observe(rng.randrange(nobj), (rng.choice(NAMES), rng.choice(NAMES)))
     return prog
 
@@ -509,8 +542,10 @@ def gen_cases(rng, tier):
     if tier == "quick":
         for n in (1, 2):
             out += list(exhaustive(ALPHA12, n))          # 13 + 169
-        out += list(exhaustive(ALPHA11, 3))              # 1331
-        nrand, maxlen = 500, 12
+        out += list(exhaustive(ALPHA8, 3))               # 512
+        for n in (1, 2, 3, 4):
+            out += list(cache_probe(PROBE6, n, ["A"]))   # 6 + 36 + 216 + 1296
+        nrand, maxlen = 450, 12
     elif tier == "search":
         nrand, maxlen = 1500, 8
     else:
@@ -518,6 +553,8 @@ def gen_cases(rng, tier):
             out += list(exhaustive(ALPHA12, n))          # 13 + 169 + 2197
         out += list(exhaustive(ALPHA11, 4))              # 14641
         out += list(exhaustive(ALPHA7, 5))               # 16807
+        for n in (1, 2, 3, 4, 5):
+            out += list(cache_probe(PROBE7, n, ["A", "b"]))   # 7 + 49 + 343 + 2401 + 16807
         nrand, maxlen = 3000, 14
     for _ in range(nrand):
         out.append(rand_prog(rng, maxlen))
